@@ -648,7 +648,7 @@ func (b *build) run() {
 			}
 		}
 		if o.verify && want == sp.ClsFalse {
-			want = sp.ClsError
+			want, why = sp.ClsError, "verify"
 		}
 		c.Tally(b.kind + "/" + opName(o) + "=" + got)
 		if got != want {
@@ -728,6 +728,11 @@ func familyCheckSig(r *common.Rand) {
 			checksigCase(r, "checksig", flags, mt(2), sigReq{Signer: 0}, sp.PKHybrid, false)
 			checksigCase(r, "checksig", flags, mt(3), sigReq{Signer: 0, Empty: true}, fi%sp.NumPK, fi%7 == 0)
 			checksigCase(r, "checksig", flags, mt(4), sigReq{Signer: -1}, (fi/2)%2, false)
+			// the low-S boundary: S = n/2 is low, S = n/2 + 1 is not (neither verifies)
+			if flags&sp.FLowS != 0 {
+				checksigCase(r, "checksig-lows-boundary", flags, mt(5), sigReq{Signer: 0, Shape: sp.SigHalfS}, sp.PKCompressed, false)
+				checksigCase(r, "checksig-lows-boundary", flags, mt(6), sigReq{Signer: 0, Shape: sp.SigHalfSPlus1}, sp.PKCompressed, false)
+			}
 			// a conforming signature of the OTHER hash-type family (legacy under the FORKID flag: replay protection)
 			checksigCase(r, "checksig-other-family", flags, matchingType(flags^sp.FForkID, fi), sigReq{Signer: 0}, fi%2, false)
 			// rotating: every signature shape, key encoding and hash type, incl. the other family's and undefined ones
